@@ -257,6 +257,15 @@ def selftest(ctx):
         found = (not r["ok"]) and "Invariant MonOK is violated" in r["out"] and "response reported sent but lost" in r["out"]
         log("selftest model: %s -> %s" % (what, "MonOK violated: response reported sent but lost (expected)" if found else "NOT violated"))
         ok &= found
+    # a Dial request that meets AlreadyConnected is queued instead of failed (seeded change C13f): lost in the window in
+    # which the protocol has processed ConnectionClosed and the manager has not
+    r = tlc_mc(ctx, "ReqRespMC.tla", write_cfg(ctx, "negq.cfg", dict(BASEC, Peers="<- OnePeer", MaxReq=2, Bugs="<- QueueAC"),
+                                               ["SPECIFICATION Spec", "INVARIANTS MonOK QuiesceStrict", "VIEW View", "CHECK_DEADLOCK FALSE"] + MV),
+               workers=4, timeout=600, expect_violation=True)
+    found = (not r["ok"]) and "Invariant QuiesceStrict is violated" in r["out"] and "MgrClosed" in r["out"]
+    log("selftest model: Dial request queued on AlreadyConnected (manager's view lags the protocol's on close) -> %s" %
+        ("QuiesceStrict violated in the close-side window (expected)" if found else "NOT violated"))
+    ok &= found
     # the drain in on_connection_closed swallows failed futures of other peers (seeded change C13e)
     r = tlc_mc(ctx, "ReqRespMC.tla", write_cfg(ctx, "negd.cfg", dict(BASEC, Peers="<- TwoPeers", MaxReq=2, Bugs="<- DrainAll"),
                                                ["SPECIFICATION Spec", "INVARIANTS MonOK QuiesceStrict", "VIEW View", "CHECK_DEADLOCK FALSE"] + MV),
